@@ -6,9 +6,12 @@
      structural gaps - the set of accepted texts is exactly the renderings of value trees
      with arbitrary blanks (C05 development), so two renderings of the same tree that differ
      only in their blanks are both accepted.
+   * string escapes: every admissible spelling of a string value (literal UTF-8, two-byte
+     escapes, \uXXXX in either case, surrogate pairs) is decoded by bytes.Unquote to the same
+     bytes (Text/Unquote.v, UnquoteProofs.v): C13_escape_respelling below.
    The schema half (line ends, indentation, comments, annotation forms, quoted rule names,
-   trailing commas, rule order) and string escapes have no theorem yet: they are decided by
-   equality across random compositions of the rewrites (lib/check_c13.py). *)
+   trailing commas, rule order) is decided by equality across random compositions of the
+   rewrites (lib/check_c13.py); the schema scanner is not modelled. *)
 From Coq Require Import List Bool Permutation.
 From Coq Require Import Strings.Byte.
 Import ListNotations.
@@ -44,3 +47,20 @@ Proof.
   exists [], v, []. rewrite app_nil_r. repeat split; auto.
 Qed.
 Print Assumptions C13_any_layout_accepted.
+
+(* ---------- string escapes (proofs in Text/UnquoteProofs.v) ---------- *)
+From Coq Require Import NArith.
+From JS Require Text.Unquote Text.UnquoteProofs.
+
+(* two spellings of the same string value (literal bytes, two-byte escapes, \uXXXX in any
+   hex case, surrogate pairs) are indistinguishable after Unquote, hence to every rule *)
+Theorem C13_escape_respelling : forall rs s1 s2 b1 b2, forallb Unquote.scalar rs = true ->
+  Unquote.spell_all rs s1 = Some b1 -> Unquote.spell_all rs s2 = Some b2 ->
+  Unquote.unquote (Unquote.quote b1) = Unquote.unquote (Unquote.quote b2).
+Proof. exact UnquoteProofs.unquote_respelling. Qed.
+Print Assumptions C13_escape_respelling.
+
+Theorem C13_utf8_roundtrip : forall r rest, Unquote.scalar r = true ->
+  Unquote.decode_rune (Unquote.encode_rune r ++ rest) = (r, List.length (Unquote.encode_rune r)).
+Proof. exact UnquoteProofs.decode_encode. Qed.
+Print Assumptions C13_utf8_roundtrip.
